@@ -106,8 +106,7 @@ class LazyList:
                 return ret
         else:
             if position < 0:
-                self.generated += list(self)
-                return self.generated[position]
+                return self.listify()[position]
             elif position < len(self.generated):
                 return self.generated[position]
             else:
